@@ -91,7 +91,7 @@ CONSTANTS Block,      \* units per full read() (4096 / 16384 in the code)
           MaxDocs, MaxSize, MaxGap,
           Modes,      \* subset of {"scan", "parse", "load"}
           TrackBoundary, \* BOOLEAN: the environment also decides, when a read() returns, whether its last unit is a CR
-          Styles,     \* scalar scanning routines with token extents: subset of {"plain", "quoted", "block"} ({}: one-unit tokens only)
+          Styles,     \* scanning routines with token extents: subset of {"plain", "quoted", "block", "word"} ({}: one-unit tokens only)
           MaxTok,     \* longest scalar line, in units
           Directives, \* BOOLEAN: '%YAML' / '%TAG' lines may precede an explicit document
           Variant
@@ -134,6 +134,10 @@ NoEv == [k |-> "none", t |-> "-"]
 NoErr == [kind |-> "-", doc |-> 0, at |-> 0]
 Tok(k, term) == [k |-> k, term |-> term]
 Running == raised = NoErr /\ ~disposed
+\* the lexeme being scanned: routine r, units of the current line measured so far, window step (negative control
+\* "window" only), phase "measure" (looking for the end of the line) | "eol" (at the terminator) | "cont" (at the start of
+\* the next line, inside the scalar)
+NoTk == [r |-> "-", len |-> 0, step |-> 1, ph |-> "-"]
 
 (***************************************************************************)
 (* Reader                                                                  *)
@@ -195,7 +199,8 @@ NeedMore == /\ ~sdone
             /\ \/ queue = <<>>
                \/ Variant = "eager"
                \/ key.on /\ ~KeyStale /\ key.idx = 1            \* the next token to hand out may still become a key
-ScanActive == Running /\ ReaderIdle /\ swant
+ScanActive == Running /\ ReaderIdle /\ swant /\ tk = NoTk          \* between tokens (fetch_more_tokens dispatches)
+TokActive(ph) == Running /\ ReaderIdle /\ swant /\ tk.ph = ph    \* inside a scanning routine
 
 \* the scanner moves n units forward
 Shift(n) == {c - n : c \in {x \in crs : x >= n}}
@@ -208,11 +213,11 @@ Moved(k, n, nl) == IF k.on THEN [k EXCEPT !.dist = Min(@ + n, MaxKey + 1), !.sam
 ScanStale ==                                \* stale_possible_simple_keys
   /\ ScanActive /\ KeyStale
   /\ key' = NoKey
-  /\ UNCHANGED <<mode, built, selfref, dirref, rdr, bol, queue, sdone, swant, env, ends, prs, top>>
+  /\ UNCHANGED <<mode, built, selfref, dirref, rdr, bol, queue, sdone, swant, tk, env, ends, prs, top>>
 ScanReady ==                                \* need_more_tokens() is false: back to whoever asked
   /\ ScanActive /\ ~KeyStale /\ ~NeedMore
   /\ swant' = FALSE
-  /\ UNCHANGED <<mode, built, selfref, dirref, rdr, bol, queue, key, sdone, env, ends, prs, top>>
+  /\ UNCHANGED <<mode, built, selfref, dirref, rdr, bol, queue, key, sdone, tk, env, ends, prs, top>>
 
 \* the environment decides what the unit at p is; W / NL are consumed by scan_to_next_token (forward needs 2 units)
 \* forward(n) refills so that one unit after the n consumed is buffered: after a CR it must see whether an LF follows
@@ -226,9 +231,9 @@ Skip(u) ==
           /\ (0 \in crs) => u = "NL"                             \* a unit announced as CR is a line break
           /\ Advance(1) /\ key' = Moved(key, 1, u = "NL") /\ bol' = (u = "NL")
           /\ IF gen = "afterDE" THEN gsize' = gsize + 1 /\ UNCHANGED dsize ELSE dsize' = dsize + 1 /\ UNCHANGED gsize
-  /\ UNCHANGED <<mode, built, selfref, dirref, queue, sdone, swant, gen, cur, bad, prs, top>>
+  /\ UNCHANGED <<mode, built, selfref, dirref, queue, sdone, swant, tk, gen, cur, bad, prs, top>>
 
-Push(tk) == queue' = Append(queue, tk)
+Push(x) == queue' = Append(queue, x)
 FetchEnd ==                                 \* NUL: STREAM-END; an open document ends here
   /\ ScanActive /\ ~KeyStale /\ NeedMore
   /\ IF ~Avail(1) THEN Ask(1) /\ UNCHANGED <<queue, key, sdone, gen, ends>>
@@ -236,7 +241,7 @@ FetchEnd ==                                 \* NUL: STREAM-END; an open document
           /\ Push(Tok("SE", gen = "body")) /\ sdone' = TRUE /\ key' = NoKey
           /\ ends' = IF gen = "body" THEN Append(ends, 0) ELSE ends
           /\ gen' = "end" /\ UNCHANGED rdr
-  /\ UNCHANGED <<mode, built, selfref, dirref, bol, swant, cur, dsize, gsize, bad, prs, top>>
+  /\ UNCHANGED <<mode, built, selfref, dirref, bol, swant, tk, cur, dsize, gsize, bad, prs, top>>
 
 FetchMarker(m) ==                           \* '---' or '...' at the beginning of a line (TermLen units + 1 of look-ahead)
   /\ ScanActive /\ ~KeyStale /\ NeedMore /\ bol /\ m \in {"DS", "DE"}
@@ -250,7 +255,7 @@ FetchMarker(m) ==                           \* '---' or '...' at the beginning o
                      IN  IF gen = "body" THEN Append(moved, TermLen) ELSE moved
           /\ IF m = "DE" THEN gen' = "afterDE" /\ gsize' = 0 /\ UNCHANGED <<cur, dsize>>
              ELSE gen' = "body" /\ cur' = cur + 1 /\ dsize' = 0 /\ UNCHANGED gsize
-  /\ UNCHANGED <<mode, built, selfref, dirref, sdone, swant, bad, prs, top>>
+  /\ UNCHANGED <<mode, built, selfref, dirref, sdone, swant, tk, bad, prs, top>>
 
 \* content tokens: K may start a simple key, T cannot, V is ':', B is lexically malformed,
 \* P / C / X are tokens the parser / composer / constructor will reject
@@ -276,7 +281,113 @@ FetchTok(u) ==
                                                       \o SubSeq(queue, key.idx, Len(queue)) \o <<Tok("VALUE", FALSE)>>
                                                  ELSE Append(queue, Tok("VALUE", FALSE))
                        [] OTHER   -> key' = NoKey /\ Push(Tok(u, FALSE))
-  /\ UNCHANGED <<mode, built, selfref, dirref, sdone, swant, gsize, prs, api, delivered, disposed, hok>>
+  /\ UNCHANGED <<mode, built, selfref, dirref, sdone, swant, tk, gsize, prs, api, delivered, disposed, hok>>
+
+\* '%YAML' / '%TAG' at the beginning of a line, before the '---' of an explicit document: at the start of the stream,
+\* after '...' or after another directive (one unit here; the rest of its line is blank / comment units)
+FetchDirective ==
+  /\ ScanActive /\ ~KeyStale /\ NeedMore /\ bol /\ Directives
+  /\ IF ~Avail(1 + LookPast) THEN Ask(1 + LookPast) /\ UNCHANGED <<bol, queue, key, gen, dsize, gsize, ends>>
+     ELSE /\ ~AtEnd /\ 0 \notin crs
+          /\ gen \in {"start", "afterDE", "dirs"} /\ cur < MaxDocs /\ CanGrow
+          /\ Advance(1) /\ Push(Tok("D", FALSE)) /\ key' = NoKey /\ bol' = FALSE /\ gen' = "dirs"
+          /\ IF gen = "afterDE" THEN gsize' = gsize + 1 /\ UNCHANGED dsize ELSE dsize' = dsize + 1 /\ UNCHANGED gsize
+  /\ UNCHANGED <<mode, built, selfref, dirref, sdone, swant, tk, cur, bad, prs, top>>
+
+(***************************************************************************)
+(* Token extents: lexemes of more than one unit.                           *)
+(*   "plain"  scan_plain / scan_plain_spaces        (scanner.py:1279-1355) *)
+(*   "quoted" scan_flow_scalar_non_spaces / _spaces / _breaks  (1190-1277) *)
+(*   "block"  scan_block_scalar / _breaks                      (981-1137)  *)
+(*   "word"   scan_anchor, scan_tag_uri, scan_tag_handle,                  *)
+(*            scan_directive_name: one line, no continuation   (904-979)   *)
+(* All of them find the end of a line with                                 *)
+(*   "length = 0; while peek(length) not in <terminators>: length += 1"    *)
+(* then prefix(length), forward(length): while the line is measured the    *)
+(* scanner stays at its start and the reader holds length + 1 units - one  *)
+(* beyond what has been looked at, never more.                             *)
+(***************************************************************************)
+CanKey(r) == CASE r = "block" -> {FALSE}                  \* fetch_block_scalar: remove_possible_simple_key
+               [] r = "word" -> {TRUE}
+               [] OTHER -> BOOLEAN                        \* allow_simple_key: after '- ' yes, after 'key: ' no
+\* the routine is entered: the indicator ('|', '>', a quote, '&', '*', '!') is consumed; a plain scalar has none, its first
+\* unit is content (the dispatcher has looked at it)
+ScalarStart(r, can) ==
+  /\ ScanActive /\ ~KeyStale /\ NeedMore /\ r \in Styles /\ can \in CanKey(r)
+  /\ LET look == IF r = "plain" THEN 1 ELSE 1 + LookPast IN
+     IF ~Avail(look) THEN Ask(look) /\ UNCHANGED <<bol, key, tk, gen, cur, dsize, ends>>
+     ELSE /\ ~AtEnd /\ 0 \notin crs
+          /\ gen \in {"start", "body"} /\ (gen = "start" => cur < MaxDocs) /\ dsize < MaxSize
+          /\ gen' = "body" /\ bol' = FALSE /\ cur' = (IF gen = "start" THEN cur + 1 ELSE cur)
+          /\ IF r = "plain"
+             THEN /\ UNCHANGED <<rdr, ends, dsize>>
+                  /\ key' = IF can THEN [on |-> TRUE, idx |-> Len(queue) + 1, dist |-> 0, same |-> TRUE] ELSE NoKey
+                  /\ tk' = [r |-> r, len |-> 1, step |-> 1, ph |-> "measure"]
+             ELSE /\ Advance(1) /\ dsize' = dsize + 1
+                  /\ key' = IF can THEN [on |-> TRUE, idx |-> Len(queue) + 1, dist |-> 1, same |-> TRUE] ELSE NoKey
+                  \* a block scalar header is followed by its line break (the header's own indicators / comment are
+                  \* read unit by unit like any blank)
+                  /\ tk' = [r |-> r, len |-> 0, step |-> 1, ph |-> IF r = "block" THEN "eol" ELSE "measure"]
+  /\ UNCHANGED <<mode, built, selfref, dirref, queue, sdone, swant, gsize, bad, prs, top>>
+
+\* one step of "while peek(length) not in terminators: length += 1", and at the terminator prefix(length), forward(length)
+\* (forward needs length + 1 units: what peek(length) has already obtained).  Negative control "window": the line end is
+\* searched in prefix(length + step), step doubling - prefix(n) makes the reader refill until n units are there.
+ScalarMeasure ==
+  /\ TokActive("measure")
+  /\ LET n == tk.len
+         w == IF Variant = "window" THEN tk.step ELSE 1
+     IN  IF ~Avail(n + w) THEN Ask(n + w) /\ UNCHANGED <<key, tk, dsize, ends>>
+         ELSE \/ /\ a >= n + w /\ n + w <= MaxTok /\ dsize + n + w <= MaxSize      \* content up to the end of the window
+                 /\ \A j \in n .. n + w - 1 : j \notin crs
+                 /\ tk' = [tk EXCEPT !.len = n + w, !.step = IF Variant = "window" THEN 2 * w ELSE 1]
+                 /\ UNCHANGED <<rdr, key, dsize, ends>>
+              \/ \E e \in n .. n + w - 1 :                                       \* the unit at e ends the line (or is NUL)
+                 /\ e <= a /\ (e = a => eofd) /\ dsize + e <= MaxSize
+                 /\ \A j \in n .. e - 1 : j \notin crs
+                 /\ Advance(e) /\ key' = Moved(key, e, FALSE) /\ dsize' = dsize + e
+                 /\ tk' = [tk EXCEPT !.len = 0, !.step = 1, !.ph = "eol"]
+  /\ UNCHANGED <<mode, built, selfref, dirref, bol, queue, sdone, swant, gen, cur, gsize, bad, prs, top>>
+
+EndTok(b) == /\ Push(Tok(IF key.on /\ key.idx = Len(queue) + 1 THEN "S" ELSE "T", FALSE)) /\ tk' = NoTk /\ bol' = b
+\* a quoted scalar that meets a document marker or the end of the stream: ScannerError (at most one malformed document)
+ScalarFail == /\ ~bad /\ bad' = TRUE /\ raised' = [kind |-> "scanner", doc |-> cur, at |-> 0]
+              /\ UNCHANGED <<rdr, bol, queue, key, tk, dsize, ends>>
+\* at the terminator of a line: the lexeme ends here ("inline": closing quote, ' #', ': ', a blank after an anchor or tag,
+\* NUL) or a line break is consumed and the routine looks at the beginning of the next line
+ScalarEol(c) ==
+  /\ TokActive("eol") /\ c \in {"inline", "break"}
+  /\ IF c = "inline"
+     THEN IF tk.r = "quoted"
+          THEN IF ~Avail(1 + LookPast) THEN Ask(1 + LookPast) /\ UNCHANGED <<bol, queue, key, tk, dsize, ends, bad, raised>>
+               ELSE IF AtEnd THEN ScalarFail
+               ELSE /\ 0 \notin crs /\ dsize < MaxSize                      \* the closing quote: forward()
+                    /\ Advance(1) /\ key' = Moved(key, 1, FALSE) /\ dsize' = dsize + 1 /\ EndTok(FALSE)
+                    /\ UNCHANGED <<bad, raised>>
+          ELSE /\ (tk.r = "block") => AtEnd                                 \* a block scalar ends at a line start or at NUL
+               /\ 0 \notin crs
+               /\ EndTok(FALSE) /\ UNCHANGED <<rdr, key, dsize, ends, bad, raised>>
+     ELSE /\ tk.r # "word"
+          /\ IF ~Avail(1 + LookPast) THEN Ask(1 + LookPast) /\ UNCHANGED <<bol, queue, key, tk, dsize, ends>>
+             ELSE /\ ~AtEnd /\ dsize < MaxSize
+                  /\ Advance(1) /\ key' = Moved(key, 1, TRUE) /\ dsize' = dsize + 1
+                  /\ tk' = [tk EXCEPT !.ph = "cont"] /\ UNCHANGED <<bol, queue>>
+          /\ UNCHANGED <<bad, raised>>
+  /\ UNCHANGED <<mode, built, selfref, dirref, sdone, swant, gen, cur, gsize, prs, api, delivered, disposed, hok>>
+
+\* at the beginning of a line inside a scalar: scan_plain_spaces / scan_flow_scalar_breaks look for a document marker
+\* (prefix(3), peek(3): TermLen + 1 units), scan_block_scalar_breaks looks at the indentation (one unit); then either
+\* another line of the scalar follows or the lexeme ends here (a marker, less indentation)
+ScalarNext(c) ==
+  /\ TokActive("cont") /\ c \in {"more", "end"}
+  /\ LET look == IF tk.r = "block" THEN 1 ELSE TermLen + 1 IN
+     IF ~Avail(look) THEN Ask(look) /\ UNCHANGED <<bol, queue, key, tk, dsize, ends, bad, raised>>
+     ELSE IF c = "more" THEN /\ ~AtEnd /\ dsize < MaxSize
+                             /\ tk' = [tk EXCEPT !.ph = "measure", !.len = 0, !.step = 1]
+                             /\ UNCHANGED <<rdr, bol, queue, key, dsize, ends, bad, raised>>
+     ELSE IF tk.r = "quoted" THEN ScalarFail
+     ELSE EndTok(TRUE) /\ UNCHANGED <<rdr, key, dsize, ends, bad, raised>>
+  /\ UNCHANGED <<mode, built, selfref, dirref, sdone, swant, gen, cur, gsize, prs, api, delivered, disposed, hok>>
 
 (***************************************************************************)
 (* Parser (one token of look-ahead)                                        *)
@@ -285,8 +396,8 @@ ParseActive == Running /\ ReaderIdle /\ ~swant /\ pwant /\ ev = NoEv /\ mode # "
 HeadTok == queue[1]
 \* check_token / peek_token: first make sure need_more_tokens() is false
 Peeked == queue # <<>> /\ ~NeedMore /\ ~KeyStale
-WantTok == swant' = TRUE /\ UNCHANGED <<bol, queue, key, sdone>>
-Take == /\ queue' = Tail(queue) /\ UNCHANGED <<bol, sdone, swant>>
+WantTok == swant' = TRUE /\ UNCHANGED <<bol, queue, key, sdone, tk>>
+Take == /\ queue' = Tail(queue) /\ UNCHANGED <<bol, sdone, swant, tk>>
         /\ key' = IF key.on /\ key.idx > 1 THEN [key EXCEPT !.idx = @ - 1] ELSE NoKey
 Keep == UNCHANGED scn
 
@@ -294,20 +405,25 @@ ParseDocStart0 ==                          \* parse_implicit_document_start
   /\ ParseActive /\ pst = "dstart0"
   /\ IF ~Peeked THEN WantTok /\ UNCHANGED <<pst, ev, raised>>
      ELSE /\ Keep /\ UNCHANGED raised
-          /\ IF HeadTok.k \notin {"DS", "DE", "SE"} THEN pst' = "content" /\ ev' = [k |-> "DocStart", t |-> "-"]
+          /\ IF HeadTok.k \notin {"D", "DS", "DE", "SE"} THEN pst' = "content" /\ ev' = [k |-> "DocStart", t |-> "-"]
              ELSE pst' = "dstart" /\ UNCHANGED ev
   /\ UNCHANGED <<mode, built, selfref, dirref, rdr, env, ends, pwant, api, delivered, disposed, hok>>
 
 ParseDocStart ==                           \* parse_document_start: skip '...', STREAM-END, or an explicit document
-  /\ ParseActive /\ pst = "dstart"
+  /\ ParseActive /\ pst \in {"dstart", "dirs"}
   /\ IF ~Peeked THEN WantTok /\ UNCHANGED <<pst, ev, raised>>
-     ELSE CASE HeadTok.k = "DE" -> Take /\ UNCHANGED <<pst, ev, raised>>
-            [] HeadTok.k = "SE" -> Take /\ pst' = "done" /\ ev' = [k |-> "StreamEnd", t |-> "-"] /\ UNCHANGED raised
+     ELSE CASE HeadTok.k = "DE" /\ pst = "dstart" -> Take /\ UNCHANGED <<pst, ev, raised>>
+            [] HeadTok.k = "SE" /\ pst = "dstart" -> Take /\ pst' = "done" /\ ev' = [k |-> "StreamEnd", t |-> "-"] /\ UNCHANGED raised
+            \* process_directives: "while self.check_token(DirectiveToken): token = self.get_token() ..." stores the
+            \* version and the tag handles (data); then '---' is required
+            [] HeadTok.k = "D" -> Take /\ pst' = "dirs" /\ UNCHANGED <<ev, raised>>
             [] HeadTok.k = "DS" -> Take /\ pst' = "content" /\ ev' = [k |-> "DocStart", t |-> "-"] /\ UNCHANGED raised
             [] OTHER -> Keep /\ raised' = [kind |-> "parser", doc |-> delivered + 1, at |-> 0] /\ UNCHANGED <<pst, ev>>
   \* "self.state = None" at STREAM-END (states and marks are empty there): the parser lets go of the loader by itself
-  /\ selfref' = (selfref /\ ~(Peeked /\ HeadTok.k = "SE"))
-  /\ UNCHANGED <<mode, built, dirref, rdr, env, ends, pwant, api, delivered, disposed, hok>>
+  /\ selfref' = (selfref /\ ~(Peeked /\ HeadTok.k = "SE" /\ pst = "dstart"))
+  \* negative control "dirtable": a table of bound methods is stored on the loader when the first directive is processed
+  /\ dirref' = (dirref \/ (Variant = "dirtable" /\ Peeked /\ HeadTok.k = "D"))
+  /\ UNCHANGED <<mode, built, rdr, env, ends, pwant, api, delivered, disposed, hok>>
 
 ParseContent ==                            \* the node events of the document, one per token here
   /\ ParseActive /\ pst = "content"
@@ -341,7 +457,7 @@ ApiStep ==
   /\ IF mode = "scan"
      THEN \* while loader.check_token(): yield loader.get_token()
           IF ~Peeked THEN /\ (IF sdone /\ queue = <<>> THEN api' = "finished" /\ UNCHANGED swant ELSE swant' = TRUE /\ UNCHANGED api)
-                          /\ UNCHANGED <<bol, queue, key, sdone, prs, delivered, raised, hok, ends>>
+                          /\ UNCHANGED <<bol, queue, key, sdone, tk, prs, delivered, raised, hok, ends>>
           ELSE /\ Take /\ UNCHANGED <<prs, raised>>
                \* the token that terminates a document is yielded: the document has been delivered
                /\ IF HeadTok.term THEN Deliver ELSE api' = "yielded" /\ UNCHANGED <<delivered, hok, ends>>
@@ -374,7 +490,7 @@ ApiStep ==
 Start ==                                   \* the first next()
   /\ Running /\ api = "new" /\ (built => ReaderIdle)
   /\ api' = "check" /\ built' = TRUE /\ selfref' = TRUE
-  /\ UNCHANGED <<mode, rdr, scn, env, ends, prs, delivered, raised, disposed, hok>>
+  /\ UNCHANGED <<mode, dirref, rdr, scn, env, ends, prs, delivered, raised, disposed, hok>>
 AbandonNew ==                              \* close() / drop before the first next(): k = 0
   /\ Running /\ api = "new" /\ (built => ReaderIdle)
   /\ disposed' = TRUE                      \* the generator is gone; no finally clause has run
@@ -399,17 +515,22 @@ Unwind ==                                  \* an error leaves the generator thro
 Init ==
   /\ mode \in Modes
   /\ closed = FALSE /\ a = 0 /\ t = 0 /\ eofd = FALSE /\ need = 0 /\ rst = "detenc" /\ crs = {}
-  /\ bol = TRUE /\ queue = <<>> /\ key = NoKey /\ sdone = FALSE /\ swant = FALSE
+  /\ bol = TRUE /\ queue = <<>> /\ key = NoKey /\ sdone = FALSE /\ swant = FALSE /\ tk = NoTk
   /\ gen = "start" /\ cur = 0 /\ dsize = 0 /\ gsize = 0 /\ ends = <<>> /\ bad = FALSE
   /\ pst = "dstart0" /\ ev = NoEv /\ pwant = FALSE
   /\ api = "new" /\ delivered = 0 /\ raised = NoErr /\ disposed = FALSE /\ hok = TRUE
-  /\ built = (Variant = "early") /\ selfref = (Variant = "early")
+  /\ built = (Variant = "early") /\ selfref = (Variant = "early") /\ dirref = FALSE
 
 Next ==
   \/ DetEnc \/ Refill \/ ScanStale \/ ScanReady \/ FetchEnd
   \/ \E u \in {"W", "NL"} : Skip(u)
   \/ \E m \in {"DS", "DE"} : FetchMarker(m)
   \/ \E u \in {"K", "T", "V", "B", "P", "C", "X"} : FetchTok(u)
+  \/ FetchDirective
+  \/ \E r \in Styles, can \in BOOLEAN : ScalarStart(r, can)
+  \/ ScalarMeasure
+  \/ \E c \in {"inline", "break"} : ScalarEol(c)
+  \/ \E c \in {"more", "end"} : ScalarNext(c)
   \/ ParseDocStart0 \/ ParseDocStart \/ ParseContent \/ ParseDocEnd
   \/ Start \/ AbandonNew \/ ApiStep \/ ApiNext \/ Abandon \/ Unwind
 Spec == Init /\ [][Next]_vars
@@ -424,9 +545,12 @@ H_Order == (raised.kind \in {"scanner", "parser", "composer", "constructor"}) =>
 \* a reader error at offset r (from p) pre-empts only documents that end less than two blocks before it: every document
 \* whose terminating token the scanner has identified and that is still undelivered ends within two blocks of r, and the
 \* scanner itself is less than two blocks behind r (so that no unidentified document end lies further back)
+\* - where "the scanner" is the last unit it has looked at: while it measures a line it stays at the start of the line and
+\* the units it has passed over are content of the lexeme
+Seen == IF tk.ph = "measure" THEN tk.len ELSE 0
 H_ReaderOrder == (raised.kind = "reader") =>
                     /\ \A j \in DOMAIN ends : HL!MayPreempt(raised.at + ends[j], Block)
-                    /\ HL!MayPreempt(raised.at, Block)
+                    /\ raised.at <= Seen \/ HL!MayPreempt(raised.at - Seen, Block)
 \* (3) a disposed loader never reads again: no reader action is enabled once it is disposed
 H_Dispose == disposed => ~(ENABLED DetEnc \/ ENABLED Refill)
 \* (3) released: once an abandoned (or exhausted) generator is gone nothing refers to the loader any more - it is freed
@@ -434,6 +558,7 @@ H_Dispose == disposed => ~(ENABLED DetEnc \/ ENABLED Refill)
 \* after a ConstructorError the two-phase generators left in constructor.state_generators (their frames hold the loader;
 \* dispose() does not touch them - the statement speaks of abandoning, not of failing, so this is modelled, not judged).
 Referrers == (IF disposed THEN {} ELSE {"generator frame"}) \cup (IF selfref THEN {"parser.state"} ELSE {})
+             \cup (IF dirref THEN {"parser.directive_handlers"} ELSE {})
              \cup (IF raised.kind = "constructor" THEN {"constructor.state_generators"} ELSE {})
 H_Release == (disposed /\ raised = NoErr) => HL!NothingLeft(Referrers)
 \* beyond the statement (drift probe of the harness): the same holds after every error but a constructor error
@@ -441,7 +566,7 @@ H_Release == (disposed /\ raised = NoErr) => HL!NothingLeft(Referrers)
 H_CallBound == (api = "new") => HL!Within(a + t, Block)
 L_NothingAtCall == (api = "new" /\ Variant # "early") => (a + t = 0 /\ ~closed)
 L_ReleaseOnError == (disposed /\ raised.kind \notin {"-", "constructor"}) => HL!NothingLeft(Referrers)
-TypeOK == /\ (a <= 2 * Block + MaxTail + TermLen + 1) \/ Variant \in {"greedy", "crjoin"}
+TypeOK == /\ (a <= Seen + 2 * Block + MaxTail + TermLen + 1) \/ Variant \in {"greedy", "crjoin", "window"}
           /\ (t <= 2 * Block + 1) \/ Variant = "crjoin"
           /\ cur <= MaxDocs
           /\ (Len(queue) <= 4) \/ Variant = "eager"
